@@ -196,6 +196,7 @@ pub fn op_json_load(job: &J) -> Result<J, String> {
         validator::Validator,
     };
     use uplc::ast::SerializableProgram;
+    let resaved: std::cell::RefCell<Option<J>> = std::cell::RefCell::new(None);
     let r: Result<Result<(), String>, String> = guarded(|| match kind {
         "blueprint" => {
             let b = serde_json::from_str::<Blueprint>(text).map_err(|e| e.to_string())?;
@@ -213,7 +214,13 @@ pub fn op_json_load(job: &J) -> Result<J, String> {
             .map(|_| ())
             .map_err(|e| e.to_string()),
         "program" => serde_json::from_str::<SerializableProgram>(text)
-            .map(|_| ())
+            .map(|p| {
+                // what the toolchain writes back for an entry it accepted (C08: bytes and hash read
+                // from a blueprint must be reproduced, or the entry refused)
+                if let Ok(v) = serde_json::to_value(&p) {
+                    resaved.replace(Some(v));
+                }
+            })
             .map_err(|e| e.to_string()),
         "config" => toml::from_str::<ProjectConfig>(text)
             .map(|_| ())
@@ -226,7 +233,10 @@ pub fn op_json_load(job: &J) -> Result<J, String> {
     });
     Ok(match r {
         Err(p) => json!({"panic": p}),
-        Ok(Ok(())) => json!({"loaded": true}),
+        Ok(Ok(())) => match resaved.into_inner() {
+            Some(v) => json!({"loaded": true, "resaved": v}),
+            None => json!({"loaded": true}),
+        },
         Ok(Err(e)) => {
             let mut e = e;
             crate::util::trunc(&mut e, 160);
